@@ -123,7 +123,17 @@ def replay_views(s, model):
 
 
 def run(chk):
-    build, oracle, tables = emucheck.setup(chk, extra_units=("guards", "taskev"))
+    # "taskc": task_find / task_type_find / task_create / task_type_create / body_find / body_create regenerated from task.c and
+    # body.c and proved equal to the primitives the units guards and taskev use (C07_task_creation_from_source)
+    build, oracle, tables = emucheck.setup(chk, extra_units=("guards", "taskev", "taskc"))
+    chk.trusted_base = list(getattr(chk, "trusted_base", [])) + [
+        "translate/units/taskc.py + translate/units/_stagec.py: the creation functions of src/emu/task.c and body.c are translated to "
+        "Gallina on every run; hand-written prelude coq/Emu/TaskCPre.v: uthash tables as insertion-ordered lists, calloc as a pending "
+        "object at its future position (a pending body is the pointer BNew), snprintf formats parsed by the translator and rendered "
+        "with PvDefs.dec, task_get_type_gid (uthash HASH_VALUE loop) as a function of the label supplied by the environment, calloc "
+        "outcome from the environment; coq/Emu/TaskCRelDefs.v reads one struct task_info as the (loom, pid, model) slice of the "
+        "emulator-core state",
+    ]
     chk.assumptions = ["type ids/labels and task ids are fresh per process; thread events as in C04",
                        "Nanos6 nests a task over another one inside a subsystem region (as the runtime does); pushing the task-body "
                        "subsystem twice in a row is refused by its channel and is outside the property"]
